@@ -21,6 +21,7 @@ struct M {
   MAKE_MOCK1(v, void(int));
   MAKE_MOCK1(r, int&(int));
   MAKE_MOCK1(cr, const int&(int));
+  MAKE_MOCK1(sv, std::string(int));
 };
 struct MV {
   static constexpr bool trompeloeil_movable_mock = true;
@@ -30,6 +31,7 @@ struct MV {
   MAKE_MOCK1(v, void(int));
   MAKE_MOCK1(r, int&(int));
   MAKE_MOCK1(cr, const int&(int));
+  MAKE_MOCK1(sv, std::string(int));
 };
 struct MW {
   MW() = default;
@@ -80,6 +82,9 @@ struct World {
   int depth = 0;       // nesting depth of mock calls made by the harness (0 = top level)
   int callobj = 0;     // object of the call in progress
   int throw_depth = 0; // nesting depth at which the exception in flight was thrown
+  int armed_ok = 0;    // 1 + reporter generation the OK callback installs, 0 = none
+  void fire_armed_ok();
+  std::string hstr(int slot) { clog.push_back("R" + std::to_string(slot)); return "str" + std::to_string(slot); }
   int armed = 0;       // 1 + mock object the reporter destroys on the next non-fatal report, 0 = none
   void fire_armed() { if (!armed) return; int obj = armed - 1; armed = 0; if (obj < 2) m[obj].reset(); else mv[obj - 2].reset(); }
 
@@ -117,6 +122,8 @@ struct World {
   std::string check_with_passes() const;  // C08: every WITH evaluation pass is a declaration-order prefix ending at the first false
 };
 
+trompeloeil::reporter_func make_reporter_fwd(int gen);
+trompeloeil::ok_reporter_func make_ok_reporter_fwd(int gen);
 World* cur();  // the world being driven (LR_ clauses must not capture locals of the creation site)
 typedef E (*SiteFn)(World*, const Op&);
 SiteFn site_fn(int shape, int slot);
